@@ -1,4 +1,746 @@
-(** C20 — proofs (placeholder for the vertical slice; filled in below). *)
+(** C20 — proofs: for every well-formed state of a module, a second export equals the first and the
+    imported state agrees with the original up to the explicit exception list. *)
 From Coq Require Import List Bool Arith ZArith Lia.
 Import ListNotations.
-Require Import Nib.C20.SMapDef Nib.C20.Model Nib.C20.Eqdec Nib.C20.Spec Nib.C20.Shape Nib.C20.Check.
+Require Import Nib.C20.SMapDef Nib.C20.SMapFacts Nib.C20.Model Nib.C20.Eqdec Nib.C20.Spec Nib.C20.Shape Nib.C20.WfB Nib.C20.Check.
+
+(* ================================================================== sudo, inflation *)
+Lemma sudo_roundtrip : forall s g, export_sudo s = Some g ->
+  export_sudo (init_sudo g) = Some g /\ init_sudo g = s.
+Proof. intros s g H. unfold export_sudo in *. subst s. split; reflexivity. Qed.
+
+Lemma infl_roundtrip : forall s, export_infl (init_infl (export_infl s)) = export_infl s.
+Proof. intros s. reflexivity. Qed.
+
+Lemma infl_state_equiv : forall s, infl_equiv s (init_infl (export_infl s)).
+Proof. intros s. unfold infl_equiv. cbn. auto. Qed.
+
+(* ================================================================== epochs *)
+Record wf_epochs (s : epochs_st) : Prop := {
+  we_sorted : sortedb s = true;
+  we_keys : keys_match ep_id s;
+  we_started : forall k e, In (k, e) s -> ep_start e <> zero_time   (* a stored epoch always has a start time *)
+}.
+
+Definition rb (h : Z) (kv : key * epoch) : key * epoch := (fst kv, rebase_epoch h (snd kv)).
+
+Lemma below_map_rb : forall h k (pre : epochs_st), below k pre -> below k (map (rb h) pre).
+Proof.
+  intros h k pre Hb k' v' Hin. apply in_map_iff in Hin. destruct Hin as [[k0 e0] [E Hin]].
+  unfold rb in E. cbn in E. inversion E; subst. exact (Hb _ _ Hin).
+Qed.
+
+Lemma add_epoch_step : forall h t (pre : epochs_st) k e,
+  below k pre -> ep_id e = k -> ep_start e <> zero_time ->
+  add_epoch h t (Some (map (rb h) pre)) e = Some (map (rb h) (pre ++ [(k, e)])).
+Proof.
+  intros h t pre k e Hb Hid Hne. unfold add_epoch.
+  pose proof (below_map_rb h k pre Hb) as Hb'.
+  rewrite Hid, mem_get, (get_below _ _ Hb').
+  apply Z.eqb_neq in Hne. rewrite Hne. rewrite (ins_below _ _ _ Hb').
+  rewrite map_app. cbn [map]. unfold rb at 3. cbn [fst snd]. unfold rebase_epoch. rewrite Hid. reflexivity.
+Qed.
+
+Lemma init_epochs_fold : forall h t l pre,
+  sortedb (pre ++ l) = true -> keys_match ep_id (pre ++ l) ->
+  (forall k e, In (k, e) (pre ++ l) -> ep_start e <> zero_time) ->
+  fold_left (add_epoch h t) (map snd l) (Some (map (rb h) pre)) = Some (map (rb h) (pre ++ l)).
+Proof.
+  intros h t. induction l as [|[k e] r IH]; intros pre Hs Hk Hst.
+  - cbn. rewrite app_nil_r. reflexivity.
+  - cbn [map snd fold_left].
+    assert (Hid : ep_id e = k) by (apply (Hk k e); apply in_or_app; right; left; reflexivity).
+    assert (Hne : ep_start e <> zero_time) by (apply (Hst k e); apply in_or_app; right; left; reflexivity).
+    rewrite (add_epoch_step h t pre k e (sortedb_app_below _ _ _ _ Hs) Hid Hne).
+    rewrite IH; rewrite <- app_assoc; cbn [app]; auto.
+Qed.
+
+Lemma epochs_init_export : forall h t s, wf_epochs s ->
+  init_epochs h t (export_epochs s) = Some (map (rb h) s).
+Proof.
+  intros h t s [Hs Hk Hst]. unfold init_epochs, export_epochs.
+  exact (init_epochs_fold h t s [] Hs Hk Hst).
+Qed.
+
+Lemma epochs_roundtrip : forall h t s, wf_epochs s ->
+  exists s', init_epochs h t (export_epochs s) = Some s' /\
+             export_epochs s' = map (rebase_epoch h) (export_epochs s) /\ epochs_equiv h s s'.
+Proof.
+  intros h t s W. exists (map (rb h) s). split; [exact (epochs_init_export h t s W)|]. split.
+  - unfold export_epochs. rewrite !map_map. reflexivity.
+  - reflexivity.
+Qed.
+
+(* ================================================================== oracle *)
+Lemma map_keyed_id : forall (m : smap voteb), keys_match v_voter m -> map (fun v => (v_voter v, v)) (map snd m) = m.
+Proof.
+  induction m as [|[k v] r IH]; intros Hk; [reflexivity|].
+  cbn [map snd]. rewrite (Hk k v (or_introl eq_refl)). f_equal. apply IH. intros k' v' Hin. apply (Hk k' v'). right. exact Hin.
+Qed.
+
+(** rewards: ascending uint64 keys *)
+Fixpoint zsorted {V} (m : list (Z * V)) : Prop :=
+  match m with
+  | [] => True
+  | (k, _) :: r => (forall k' v', In (k', v') r -> (k < k')%Z) /\ zsorted r
+  end.
+
+Lemma zins_above : forall V (m : list (Z * V)) k v, (forall k' v', In (k', v') m -> (k' < k)%Z) -> zins k v m = m ++ [(k, v)].
+Proof.
+  induction m as [|[k1 v1] r IH]; intros k v Hb; [reflexivity|].
+  cbn [zins app]. assert (k1 < k)%Z by (apply (Hb k1 v1); left; reflexivity).
+  destruct (Z.ltb k k1) eqn:E1; [apply Z.ltb_lt in E1; lia|].
+  destruct (Z.eqb k k1) eqn:E2; [apply Z.eqb_eq in E2; lia|].
+  f_equal. apply IH. intros k' v' Hin. apply (Hb k' v'). right. exact Hin.
+Qed.
+
+Lemma zsorted_app_below : forall V (pre : list (Z * V)) k v l, zsorted (pre ++ (k, v) :: l) ->
+  forall k' v', In (k', v') pre -> (k' < k)%Z.
+Proof.
+  induction pre as [|[k1 v1] r IH]; intros k v l H k' v' Hin; [destruct Hin|].
+  cbn [app zsorted] in H. destruct H as [Hall Hs]. destruct Hin as [E | Hin].
+  - inversion E; subst. apply (Hall k v). apply in_or_app. right. left. reflexivity.
+  - exact (IH _ _ _ Hs _ _ Hin).
+Qed.
+
+Lemma rewards_fold : forall (l pre : list (Z * reward)),
+  zsorted (pre ++ l) -> (forall k r, In (k, r) (pre ++ l) -> rw_id r = k) ->
+  fold_left (fun acc r => zins (rw_id r) r acc) (map snd l) pre = pre ++ l.
+Proof.
+  induction l as [|[k r] rest IH]; intros pre Hs Hk.
+  - cbn. rewrite app_nil_r. reflexivity.
+  - cbn [map snd fold_left]. rewrite (Hk k r) by (apply in_or_app; right; left; reflexivity).
+    rewrite zins_above by (exact (zsorted_app_below _ _ _ _ _ Hs)).
+    rewrite IH; rewrite <- app_assoc; cbn [app]; auto.
+Qed.
+
+Definition wf_rewards (s : oracle_st) : Prop :=
+  zsorted (o_rewards s) /\ (forall k r, In (k, r) (o_rewards s) -> rw_id r = k).
+
+Record wf_oracle' (s : oracle_st) : Prop := {
+  wo'_rates : sortedb (o_rates s) = true; wo'_feeders : sortedb (o_feeders s) = true;
+  wo'_miss : sortedb (o_miss s) = true; wo'_prevotes : sortedb (o_prevotes s) = true;
+  wo'_votes : sortedb (o_votes s) = true; wo'_pairs : ksortedb (o_pairs s) = true;
+  wo'_pv_keys : keys_match v_voter (o_prevotes s); wo'_v_keys : keys_match v_voter (o_votes s);
+  wo'_rewards : wf_rewards s;
+  (* the KeySet is refreshed from Params.Whitelist at the end of every vote period and filled by
+     InitGenesis; it is empty with a non-empty whitelist only before the first period end of a chain
+     whose genesis whitelist was empty *)
+  wo'_pairs_nonempty : o_pairs s = [] -> o_whitelist s = []
+}.
+
+Lemma last_in_or_default : forall A (l : list A) d, l = [] \/ In (last l d) l.
+Proof.
+  induction l as [|x r IH]; intros d; [left; reflexivity|]. right.
+  destruct r as [|y r']; [left; reflexivity|]. right.
+  destruct (IH d) as [E | H]; [discriminate | exact H].
+Qed.
+
+Lemma last_cons_default : forall A (l : list A) d, last (d :: l) d = last l d.
+Proof. intros A l d. destruct l; reflexivity. Qed.
+
+Lemma last_map : forall A B (f : A -> B) (l : list A) d, last (map f l) (f d) = f (last l d).
+Proof.
+  intros A B f. induction l as [|x r IH]; intros d; [reflexivity|].
+  destruct r as [|y r']; [reflexivity|].
+  change (last (map f (x :: y :: r')) (f d)) with (last (map f (y :: r')) (f d)).
+  change (last (x :: y :: r') d) with (last (y :: r') d). apply IH.
+Qed.
+
+Lemma zsorted_last_max : forall V (m : list (Z * V)) d k v, zsorted m -> In (k, v) m -> (k <= fst (last m d))%Z.
+Proof.
+  induction m as [|[k1 v1] r IH]; intros d k v Hs Hin; [destruct Hin|].
+  cbn [zsorted] in Hs. destruct Hs as [Hall Hs].
+  destruct r as [|x r'].
+  - destruct Hin as [E | []]. inversion E. cbn. lia.
+  - change (last ((k1, v1) :: x :: r') d) with (last (x :: r') d).
+    destruct Hin as [E | Hin].
+    + inversion E; subst k1 v1.
+      destruct (last_in_or_default _ (x :: r') d) as [E' | Hl]; [discriminate|].
+      destruct (last (x :: r') d) as [kl vl] eqn:El. specialize (Hall _ _ Hl). cbn. lia.
+    + exact (IH d k v Hs Hin).
+Qed.
+
+Lemma oracle_init_export : forall c h t s, wf_oracle' s ->
+  let s' := init_oracle c h t (export_oracle s) in
+  export_oracle s' = export_oracle s /\
+  o_params s' = o_params s /\ o_whitelist s' = o_whitelist s /\ o_feeders s' = o_feeders s /\
+  o_miss s' = o_miss s /\ o_prevotes s' = o_prevotes s /\ o_votes s' = o_votes s /\
+  o_pairs s' = o_pairs s /\ o_rewards s' = o_rewards s /\
+  o_rates s' = map (restamp h t) (o_rates s) /\ o_snaps s' = snaps_of t (o_rates s') /\
+  o_rewards_id s' = rewards_id_after c (map snd (o_rewards s)).
+Proof.
+  intros c h t s W s'. destruct W as [Hr Hf Hm Hpv Hv Hp Kpv Kv [Hrs Hrk] Hne].
+  assert (Erates : o_rates s' = map (restamp h t) (o_rates s)).
+  { unfold s', init_oracle, export_oracle. cbn [o_rates og_rates]. rewrite map_map. cbn [fst snd].
+    exact (of_list_map_vals _ _ (fun kv => {| r_rate := r_rate (snd kv); r_created := h; r_ts := t |}) (o_rates s) Hr). }
+  assert (Efeed : o_feeders s' = o_feeders s) by (exact (of_list_sorted _ Hf)).
+  assert (Emiss : o_miss s' = o_miss s) by (exact (of_list_sorted _ Hm)).
+  assert (Epv : o_prevotes s' = o_prevotes s).
+  { unfold s', init_oracle, export_oracle. cbn [o_prevotes og_prevotes]. rewrite (map_keyed_id _ Kpv). exact (of_list_sorted _ Hpv). }
+  assert (Ev : o_votes s' = o_votes s).
+  { unfold s', init_oracle, export_oracle. cbn [o_votes og_votes]. rewrite (map_keyed_id _ Kv). exact (of_list_sorted _ Hv). }
+  assert (Epairs : o_pairs s' = o_pairs s).
+  { unfold s', init_oracle, export_oracle. cbn [o_pairs og_pairs og_whitelist].
+    destruct (o_pairs s) as [|p ps] eqn:E.
+    - rewrite (Hne eq_refl). reflexivity.
+    - rewrite <- E. apply kset_of_sorted. rewrite E. exact Hp. }
+  assert (Erw : o_rewards s' = o_rewards s).
+  { unfold s', init_oracle, export_oracle. cbn [o_rewards og_rewards]. exact (rewards_fold (o_rewards s) [] Hrs Hrk). }
+  repeat split; try assumption; try reflexivity.
+  unfold export_oracle. rewrite Erates, Efeed, Emiss, Epv, Ev, Epairs, Erw.
+  f_equal. rewrite map_map. reflexivity.
+Qed.
+
+Lemma rewards_fresh_after : forall c h t s, c_rid c = RidLastPlus1 -> wf_oracle' s ->
+  rewards_fresh (init_oracle c h t (export_oracle s)).
+Proof.
+  intros c h t s Hc W. pose proof (oracle_init_export c h t s W) as H. cbn zeta in H.
+  destruct H as (_ & _ & _ & _ & _ & _ & _ & _ & Erw & _ & _ & Eid).
+  unfold rewards_fresh. rewrite Erw, Eid. intros k r Hin.
+  destruct W as [_ _ _ _ _ _ _ _ [Hrs Hrk] _].
+  unfold rewards_id_after. rewrite Hc.
+  destruct (o_rewards s) as [|[k0 r0] rest] eqn:E; [destruct Hin|].
+  cbn [map snd peek].
+  pose proof (zsorted_last_max _ ((k0, r0) :: rest) (k0, r0) k r Hrs Hin) as Hmax.
+  (* the id of the last reward is the key of the last entry *)
+  assert (Hl : rw_id (last (map snd rest) r0) = fst (last ((k0, r0) :: rest) (k0, r0))).
+  { rewrite last_cons_default. change r0 with (snd (k0, r0)) at 1. rewrite last_map.
+    destruct (last_in_or_default _ rest (k0, r0)) as [E' | Hl'].
+    - subst rest. cbn. exact (Hrk k0 r0 (or_introl eq_refl)).
+    - destruct (last rest (k0, r0)) as [kl rl] eqn:El. cbn [fst snd]. apply Hrk. right. exact Hl'. }
+  rewrite Hl. lia.
+Qed.
+
+(** On the pinned tree (RewardsID := id of the last reward) freshness is lost. *)
+Definition stale_witness : oracle_st :=
+  {| o_params := 0; o_whitelist := []; o_rates := []; o_feeders := []; o_miss := []; o_prevotes := []; o_votes := [];
+     o_pairs := []; o_rewards := [(1%Z, {| rw_id := 1%Z; rw_body := 7 |}); (2%Z, {| rw_id := 2%Z; rw_body := 8 |})];
+     o_rewards_id := Some 3%Z; o_snaps := [] |}.
+
+Lemma rewards_id_stale_refuted : forall c h t, c_rid c = RidLast ->
+  rewards_freshb stale_witness = true /\
+  rewards_freshb (init_oracle c h t (export_oracle stale_witness)) = false.
+Proof. intros c h t Hc. split; [reflexivity|]. unfold rewards_freshb, init_oracle, rewards_id_after. cbn. rewrite Hc. reflexivity. Qed.
+
+(* ================================================================== tokenfactory *)
+Record wf_tf (F : funs) (s : tf_st) : Prop := {
+  wt_denoms : sortedb (tf_denoms s) = true;
+  wt_admin_keys : map fst (tf_admins s) = map fst (tf_denoms s);          (* every denom has an admin entry *)
+  wt_parse : forall d v, In (d, v) (tf_denoms s) -> f_tfparse F d = v;    (* the stored TFDenom is the parsed key *)
+  wt_creators : tf_creators s = kset_of (map (fun dv => fst (snd dv)) (tf_denoms s));
+  wt_idx : tf_idx s = idx_of (fun _ v => fst v) (tf_denoms s);
+  wt_md : forall d v, In (d, v) (tf_denoms s) -> mem d (tf_bankmd s) = true  (* HasDenom = bank metadata exists *)
+}.
+
+Lemma tf_export_denoms_ok : forall (ds : smap (key * id)) (adm pre : smap id),
+  sortedb (pre ++ adm) = true -> map fst adm = map fst ds ->
+  tf_export_denoms (pre ++ adm) ds = Some adm.
+Proof.
+  induction ds as [|[d v] r IH]; intros adm pre Hs Hk.
+  - destruct adm; [reflexivity | discriminate].
+  - destruct adm as [|[d' a] adm']; [discriminate|]. cbn in Hk. inversion Hk; subst d'.
+    cbn [tf_export_denoms].
+    assert (Hg : get d (pre ++ (d, a) :: adm') = Some a).
+    { apply get_in; [exact Hs|]. apply in_or_app. right. left. reflexivity. }
+    rewrite Hg.
+    replace (pre ++ (d, a) :: adm') with ((pre ++ [(d, a)]) ++ adm') by (rewrite <- app_assoc; reflexivity).
+    rewrite IH; [reflexivity | rewrite <- app_assoc; exact Hs | assumption].
+Qed.
+
+Lemma nodupb_sorted : forall V (m : smap V), sortedb m = true -> nodupb (map fst m) = true.
+Proof.
+  induction m as [|[k v] r IH]; intros Hs; [reflexivity|].
+  apply sortedb_cons in Hs. destruct Hs as [Hs Hall]. cbn [map fst nodupb]. rewrite (IH Hs), andb_true_r.
+  apply negb_true_iff. apply not_true_iff_false. intro Hex. apply existsb_exists in Hex. destruct Hex as [x [Hin E]].
+  apply Nat.eqb_eq in E. subst x. apply in_map_iff in Hin. destruct Hin as [[k' v'] [E Hin]]. cbn in E. subst k'.
+  specialize (Hall _ _ Hin). lia.
+Qed.
+
+Lemma tf_parse_map : forall F (ds : smap (key * id)) (adm : smap id),
+  map fst adm = map fst ds -> (forall d v, In (d, v) ds -> f_tfparse F d = v) ->
+  map (fun da => (fst da, f_tfparse F (fst da))) adm = ds.
+Proof.
+  induction ds as [|[d v] r IH]; intros [|[d' a] adm'] Hk Hp; try discriminate; [reflexivity|].
+  cbn in Hk. inversion Hk; subst d'. cbn [map fst]. rewrite (Hp d v (or_introl eq_refl)). f_equal.
+  apply IH; [assumption|]. intros d0 v0 Hin. apply Hp. right. exact Hin.
+Qed.
+
+Lemma tf_md_kept : forall c F (adm : smap id) md, c_tf_keeps_bank_md c = true ->
+  (forall d a, In (d, a) adm -> mem d md = true) ->
+  fold_left (fun acc da => let d := fst da in if c_tf_keeps_bank_md c && mem d acc then acc else ins d (f_tfdefmd F d) acc) adm md = md.
+Proof.
+  intros c F adm md Hc. rewrite Hc. revert md.
+  induction adm as [|[d a] r IH]; intros md Hm; [reflexivity|].
+  cbn [fold_left fst]. rewrite (Hm d a (or_introl eq_refl)). cbn [andb].
+  apply IH. intros d0 a0 Hin. apply (Hm d0 a0). right. exact Hin.
+Qed.
+
+Lemma tf_roundtrip : forall c F s, wf_tf F s ->
+  exists g, export_tf s = Some g /\
+  exists s', init_tf c F (tf_bankmd s) g = Some s' /\ export_tf s' = Some g /\
+             tf_params s' = tf_params s /\ tf_denoms s' = tf_denoms s /\ tf_creators s' = tf_creators s /\
+             tf_admins s' = tf_admins s /\ tf_idx s' = tf_idx s /\
+             (c_tf_keeps_bank_md c = true -> tf_bankmd s' = tf_bankmd s).
+Proof.
+  intros c F s [Hd Hk Hp Hc Hi Hm].
+  assert (Hsa : sortedb (tf_admins s) = true) by (rewrite (sortedb_map_keys _ _ _ _ Hk); exact Hd).
+  assert (Hexp : tf_export_denoms (tf_admins s) (tf_denoms s) = Some (tf_admins s)) by (exact (tf_export_denoms_ok _ _ [] Hsa Hk)).
+  exists {| tg_params := tf_params s; tg_denoms := tf_admins s |}.
+  split; [unfold export_tf; rewrite Hexp; reflexivity|].
+  unfold init_tf. cbn [tg_denoms tg_params]. rewrite (nodupb_sorted _ _ Hsa). cbn [negb].
+  rewrite (tf_parse_map F _ _ Hk Hp). rewrite (of_list_sorted _ Hd), (of_list_sorted _ Hsa).
+  eexists. split; [reflexivity|]. cbn [tf_params tf_denoms tf_creators tf_admins tf_idx tf_bankmd].
+  split; [unfold export_tf; cbn [tf_admins tf_denoms tf_params]; rewrite Hexp; reflexivity|].
+  split; [reflexivity|]. split; [reflexivity|].
+  split.
+  { rewrite Hc. f_equal. clear - Hk Hp.
+    assert (G : forall (ds : smap (key * id)) (adm : smap id), map fst adm = map fst ds ->
+                (forall d v, In (d, v) ds -> f_tfparse F d = v) ->
+                map (fun da => fst (f_tfparse F (fst da))) adm = map (fun dv => fst (snd dv)) ds).
+    { induction ds as [|[d v] r IH]; intros [|[d' a] adm'] Hk' Hp'; try discriminate; [reflexivity|].
+      cbn in Hk'. inversion Hk'; subst d'. cbn [map fst snd]. rewrite (Hp' d v (or_introl eq_refl)). f_equal.
+      apply IH; [assumption|]. intros d0 v0 Hin. apply Hp'. right. exact Hin. }
+    exact (G _ _ Hk Hp). }
+  split; [reflexivity|]. split; [symmetry; exact Hi|].
+  intros Hkeep. apply tf_md_kept; [exact Hkeep|].
+  intros d a Hin.
+  assert (Hind : In d (map fst (tf_denoms s))) by (rewrite <- Hk; apply in_map_iff; exists (d, a); split; [reflexivity | exact Hin]).
+  apply in_map_iff in Hind. destruct Hind as [[d' v] [E Hin']]. cbn in E. subst d'. exact (Hm d v Hin').
+Qed.
+
+(** On the pinned tree (metadata overwritten with the default) custom metadata is lost. *)
+Definition tf_md_witness : tf_st :=
+  {| tf_params := 0; tf_denoms := [(5, (3, 1))]; tf_creators := [3]; tf_admins := [(5, 9)];
+     tf_idx := [(3, 5)]; tf_bankmd := [(5, 77)] |}.
+Definition tf_md_funs : funs :=
+  {| f_hash := fun _ => 0; f_code_empty := fun _ => false; f_ftid := fun _ _ => 0;
+     f_tfparse := fun _ => (3, 1); f_tfdefmd := fun _ => 42; f_dgsan := fun x => x |}.
+
+Lemma tf_md_witness_wf : wf_tf tf_md_funs tf_md_witness.
+Proof.
+  constructor; try reflexivity.
+  - intros d v [E | []]. inversion E. reflexivity.
+  - intros d v [E | []]. inversion E. reflexivity.
+Qed.
+
+Lemma tf_bank_md_reset_refuted : forall c, c_tf_keeps_bank_md c = false ->
+  exists g s', export_tf tf_md_witness = Some g /\ init_tf c tf_md_funs (tf_bankmd tf_md_witness) g = Some s' /\
+               tf_bankmd s' <> tf_bankmd tf_md_witness.
+Proof.
+  intros c Hc. eexists. eexists. split; [reflexivity|]. split.
+  - unfold init_tf. cbn. rewrite Hc. cbn. reflexivity.
+  - cbn. discriminate.
+Qed.
+
+(* ================================================================== devgas *)
+Record wf_devgas (F : funs) (s : devgas_st) : Prop := {
+  wd_sorted : sortedb (dg_shares s) = true;
+  wd_keys : keys_match fs_contract (dg_shares s);
+  wd_idx_dep : dg_idx_dep s = idx_of (fun _ v => fs_deployer v) (dg_shares s);
+  wd_idx_wd : dg_idx_wd s = idx_of (fun _ v => fs_withdrawer v) (dg_shares s);
+  wd_san : f_dgsan F (dg_params s) = dg_params s     (* stored params are already sanitised *)
+}.
+
+Lemma map_keyed_id_gen : forall V (f : V -> nat) (m : smap V), keys_match f m -> map (fun v => (f v, v)) (map snd m) = m.
+Proof.
+  intros V f. induction m as [|[k v] r IH]; intros Hk; [reflexivity|].
+  cbn [map snd]. rewrite (Hk k v (or_introl eq_refl)). f_equal. apply IH. intros k' v' Hin. apply (Hk k' v'). right. exact Hin.
+Qed.
+
+Lemma map_key_fst : forall V (f : V -> nat) (m : smap V), keys_match f m -> map f (map snd m) = map fst m.
+Proof.
+  intros V f. induction m as [|[k v] r IH]; intros Hk; [reflexivity|].
+  cbn [map snd fst]. rewrite (Hk k v (or_introl eq_refl)). f_equal. apply IH. intros k' v' Hin. apply (Hk k' v'). right. exact Hin.
+Qed.
+
+Lemma devgas_roundtrip : forall F s, wf_devgas F s ->
+  init_devgas F (export_devgas s) = Some s.
+Proof.
+  intros F s [Hs Hk Hd Hw Hsan]. unfold init_devgas, export_devgas. cbn [dgg_shares dgg_params].
+  rewrite (map_key_fst _ _ _ Hk), (nodupb_sorted _ _ Hs). cbn [negb].
+  rewrite (map_keyed_id_gen _ _ _ Hk), (of_list_sorted _ Hs), Hsan, <- Hd, <- Hw.
+  destruct s; reflexivity.
+Qed.
+
+(* ================================================================== evm *)
+Definition env_sorted (env : list authacc) : Prop := sortedb (map (fun a => (aa_addr a, a)) env) = true.
+
+Record wf_evm (F : funs) (s : evm_st) : Prop := {
+  wv_code : sortedb (ev_code s) = true;
+  wv_hash : forall h c, In (h, c) (ev_code s) -> f_hash F c = h /\ f_code_empty F c = false;
+  wv_storage : sortedb (ev_storage s) = true;
+  wv_slots : forall a m, In (a, m) (ev_storage s) -> sortedb m = true /\ m <> [];
+  wv_ft : sortedb (ev_ft s) = true;
+  wv_ft_keys : keys_match (fun f => f_ftid F (ft_erc20 f) (ft_denom f)) (ev_ft s);
+  wv_idx_erc20 : ev_idx_erc20 s = idx_of (fun _ v => ft_erc20 v) (ev_ft s);
+  wv_idx_denom : ev_idx_denom s = idx_of (fun _ v => ft_denom v) (ev_ft s)
+}.
+
+Lemma find_acc_in : forall env a, env_sorted env -> In a env -> find_acc (aa_addr a) env = Some a.
+Proof.
+  unfold env_sorted, find_acc. induction env as [|x r IH]; intros a Hs Hin; [destruct Hin|].
+  cbn [map] in Hs. apply sortedb_cons in Hs. destruct Hs as [Hs Hall]. cbn [find].
+  destruct Hin as [E | Hin].
+  - subst x. rewrite Nat.eqb_refl. reflexivity.
+  - assert (aa_addr x < aa_addr a).
+    { apply (Hall (aa_addr a) a). apply in_map_iff. exists a. split; [reflexivity | exact Hin]. }
+    destruct (aa_addr x =? aa_addr a) eqn:E; [apply Nat.eqb_eq in E; lia|]. exact (IH a Hs Hin).
+Qed.
+
+(** storing the slots of one account *)
+Lemma set_slot_fold : forall a (l pre : smap id) st,
+  sortedb (pre ++ l) = true -> pre <> [] ->
+  fold_left (set_slot a) l (ins a pre st) = ins a (pre ++ l) st.
+Proof.
+  intros a. induction l as [|[k v] r IH]; intros pre st Hs Hne.
+  - cbn. rewrite app_nil_r. reflexivity.
+  - cbn [fold_left]. unfold set_slot at 2. cbn [fst snd].
+    unfold storage_of. rewrite get_ins, Nat.eqb_refl.
+    rewrite (ins_below pre k v (sortedb_app_below _ _ _ _ Hs)).
+    assert (Hii : forall x y, ins a x (ins a y st) = ins a x st).
+    { intros x y. clear. induction st as [|[k1 v1] r1 IHs].
+      - cbn [ins]. rewrite Nat.ltb_irrefl, Nat.eqb_refl. reflexivity.
+      - cbn [ins]. destruct (a <? k1) eqn:E1.
+        + cbn [ins]. rewrite Nat.ltb_irrefl, Nat.eqb_refl. reflexivity.
+        + destruct (a =? k1) eqn:E2.
+          * cbn [ins]. rewrite Nat.ltb_irrefl, Nat.eqb_refl. reflexivity.
+          * cbn [ins]. rewrite E1, E2. f_equal. exact IHs. }
+    rewrite Hii. rewrite IH.
+    + rewrite <- app_assoc. reflexivity.
+    + rewrite <- app_assoc. exact Hs.
+    + destruct pre; discriminate.
+Qed.
+
+Lemma set_slots_account : forall a (m : smap id) st, sortedb m = true -> get a st = None ->
+  fold_left (set_slot a) m st = match m with [] => st | _ => ins a m st end.
+Proof.
+  intros a m st Hs Hg. destruct m as [|[k v] r]; [reflexivity|].
+  cbn [fold_left]. unfold set_slot at 2. cbn [fst snd]. unfold storage_of. rewrite Hg. cbn [ins].
+  exact (set_slot_fold a r [(k, v)] st Hs ltac:(discriminate)).
+Qed.
+
+(** invariant of the account loop of InitGenesis: lookups in the accumulated code / storage are the
+    original lookups restricted to the accounts processed so far *)
+Definition acc_exported (s : evm_st) (x : authacc) : bool := aa_eth x && mem (aa_hash x) (ev_code s).
+Definition hash_seen (s : evm_st) (l : list authacc) (h : key) : bool :=
+  existsb (fun x => (aa_hash x =? h) && acc_exported s x) l.
+Definition addr_seen (s : evm_st) (l : list authacc) (a : key) : bool :=
+  existsb (fun x => (aa_addr x =? a) && acc_exported s x) l.
+
+Definition export_accs (s : evm_st) (l : list authacc) : list gacc :=
+  flat_map (fun a =>
+     if aa_eth a then
+       match get (aa_hash a) (ev_code s) with
+       | Some c => [{| ga_addr := aa_addr a; ga_code := c; ga_storage := storage_of (aa_addr a) (ev_storage s) |}]
+       | None => []
+       end
+     else []) l.
+
+Lemma evm_accounts_fold : forall F env s, wf_evm F s -> env_sorted env ->
+  forall l done code st,
+    env = done ++ l ->
+    sortedb code = true -> sortedb st = true ->
+    (forall h, get h code = if hash_seen s done h then get h (ev_code s) else None) ->
+    (forall a, get a st = if addr_seen s done a then get a (ev_storage s) else None) ->
+    exists code' st',
+      fold_left (init_evm_acc F env) (export_accs s l) (Some (code, st)) = Some (code', st') /\
+      sortedb code' = true /\ sortedb st' = true /\
+      (forall h, get h code' = if hash_seen s env h then get h (ev_code s) else None) /\
+      (forall a, get a st' = if addr_seen s env a then get a (ev_storage s) else None).
+Proof.
+  intros F env s W Henv. induction l as [|x r IH]; intros done code st Eenv Hsc Hss Hc Hst.
+  - rewrite app_nil_r in Eenv. subst done. exists code, st. cbn. auto.
+  - assert (Eenv' : env = (done ++ [x]) ++ r) by (rewrite <- app_assoc; exact Eenv).
+    assert (Hin : In x env) by (rewrite Eenv; apply in_or_app; right; left; reflexivity).
+    (* no processed account has the address of x *)
+    assert (Hfresh : forall y, In y done -> aa_addr y <> aa_addr x).
+    { intros y Hy. unfold env_sorted in Henv. rewrite Eenv, map_app in Henv. cbn [map] in Henv.
+      pose proof (sortedb_app_below _ _ _ _ Henv (aa_addr y) y) as Hlt.
+      assert (aa_addr y < aa_addr x) by (apply Hlt; apply in_map_iff; exists y; split; [reflexivity | exact Hy]). lia. }
+    unfold export_accs. cbn [flat_map]. fold (export_accs s r). rewrite fold_left_app.
+    destruct (aa_eth x) eqn:Eeth.
+    + destruct (get (aa_hash x) (ev_code s)) as [c|] eqn:Eg.
+      * (* x is exported *)
+        cbn [fold_left]. unfold init_evm_acc at 2. cbn [ga_addr ga_code ga_storage].
+        rewrite (find_acc_in env x Henv Hin), Eeth. cbn [negb].
+        destruct (wv_hash F s W _ _ (get_some_in _ _ _ Eg)) as [Hh Hemp].
+        rewrite Hh, Hemp, Nat.eqb_refl. cbn [negb andb].
+        assert (Hgx : get (aa_addr x) st = None).
+        { rewrite Hst. destruct (addr_seen s done (aa_addr x)) eqn:E; [|reflexivity].
+          unfold addr_seen in E. apply existsb_exists in E. destruct E as [y [Hy E]].
+          apply andb_true_iff in E. destruct E as [E _]. apply Nat.eqb_eq in E. exfalso. exact (Hfresh y Hy E). }
+        assert (Hslots : sortedb (storage_of (aa_addr x) (ev_storage s)) = true).
+        { unfold storage_of. destruct (get (aa_addr x) (ev_storage s)) as [m|] eqn:Em; [|reflexivity].
+          exact (proj1 (wv_slots F s W _ _ (get_some_in _ _ _ Em))). }
+        rewrite (set_slots_account _ _ _ Hslots Hgx).
+        set (st1 := match storage_of (aa_addr x) (ev_storage s) with [] => st | _ => ins (aa_addr x) (storage_of (aa_addr x) (ev_storage s)) st end).
+        assert (Hx : acc_exported s x = true) by (unfold acc_exported; rewrite Eeth, mem_get, Eg; reflexivity).
+        apply (IH (done ++ [x]) (ins (aa_hash x) c code) st1 Eenv').
+        -- apply sortedb_ins. exact Hsc.
+        -- unfold st1. destruct (storage_of (aa_addr x) (ev_storage s)); [exact Hss | apply sortedb_ins; exact Hss].
+        -- intros h. rewrite get_ins. unfold hash_seen. rewrite existsb_app. cbn [existsb]. rewrite orb_false_r, Hx, andb_true_r.
+           fold (hash_seen s done h). rewrite Hc. rewrite (Nat.eqb_sym h (aa_hash x)).
+           destruct (aa_hash x =? h) eqn:E.
+           ++ apply Nat.eqb_eq in E. subst h. rewrite orb_true_r. symmetry. exact Eg.
+           ++ rewrite orb_false_r. reflexivity.
+        -- intros a. unfold addr_seen. rewrite existsb_app. cbn [existsb]. rewrite orb_false_r, Hx, andb_true_r.
+           fold (addr_seen s done a). unfold st1, storage_of.
+           destruct (aa_addr x =? a) eqn:E.
+           ++ apply Nat.eqb_eq in E. subst a. rewrite orb_true_r.
+              destruct (get (aa_addr x) (ev_storage s)) as [m|] eqn:Em.
+              ** destruct (wv_slots F s W _ _ (get_some_in _ _ _ Em)) as [_ Hne].
+                 destruct m as [|e m']; [congruence|]. rewrite get_ins, Nat.eqb_refl. reflexivity.
+              ** exact Hgx.
+           ++ rewrite orb_false_r.
+              destruct (get (aa_addr x) (ev_storage s)) as [[|e m']|]; try exact (Hst a).
+              rewrite get_ins, (Nat.eqb_sym a (aa_addr x)), E. exact (Hst a).
+      * (* an EthAccount without bytecode: skipped *)
+        cbn [fold_left].
+        assert (Hx : acc_exported s x = false) by (unfold acc_exported; rewrite Eeth, mem_get, Eg; reflexivity).
+        apply (IH (done ++ [x]) code st Eenv' Hsc Hss).
+        -- intros h. unfold hash_seen. rewrite existsb_app. cbn [existsb]. rewrite Hx, andb_false_r, !orb_false_r. exact (Hc h).
+        -- intros a. unfold addr_seen. rewrite existsb_app. cbn [existsb]. rewrite Hx, andb_false_r, !orb_false_r. exact (Hst a).
+    + cbn [fold_left].
+      assert (Hx : acc_exported s x = false) by (unfold acc_exported; rewrite Eeth; reflexivity).
+      apply (IH (done ++ [x]) code st Eenv' Hsc Hss).
+      -- intros h. unfold hash_seen. rewrite existsb_app. cbn [existsb]. rewrite Hx, andb_false_r, !orb_false_r. exact (Hc h).
+      -- intros a. unfold addr_seen. rewrite existsb_app. cbn [existsb]. rewrite Hx, andb_false_r, !orb_false_r. exact (Hst a).
+Qed.
+
+Lemma flat_map_ext_in : forall A B (f g : A -> list B) l, (forall a, In a l -> f a = g a) -> flat_map f l = flat_map g l.
+Proof.
+  intros A B f g. induction l as [|x r IH]; intros H; [reflexivity|].
+  cbn [flat_map]. rewrite (H x (or_introl eq_refl)), IH; [reflexivity|]. intros a Ha. apply H. right. exact Ha.
+Qed.
+
+Lemma hash_seen_witness : forall s env x, In x env -> acc_exported s x = true -> hash_seen s env (aa_hash x) = true.
+Proof.
+  intros s env x Hin Hx. unfold hash_seen. apply existsb_exists. exists x. split; [exact Hin|]. rewrite Nat.eqb_refl, Hx. reflexivity.
+Qed.
+Lemma addr_seen_witness : forall s env x, In x env -> acc_exported s x = true -> addr_seen s env (aa_addr x) = true.
+Proof.
+  intros s env x Hin Hx. unfold addr_seen. apply existsb_exists. exists x. split; [exact Hin|]. rewrite Nat.eqb_refl, Hx. reflexivity.
+Qed.
+
+Lemma addr_seen_exported : forall s env a, addr_seen s env a = exported_acc env s a.
+Proof.
+  intros s env a. unfold addr_seen, exported_acc, acc_exported. induction env as [|x r IH]; [reflexivity|].
+  cbn [existsb]. rewrite IH, andb_assoc. reflexivity.
+Qed.
+
+Lemma hash_seen_exported : forall s env h v, get h (ev_code s) = Some v -> hash_seen s env h = exported_hash env s h.
+Proof.
+  intros s env h v Hg. unfold hash_seen, exported_hash, acc_exported. induction env as [|x r IH]; [reflexivity|].
+  cbn [existsb]. rewrite IH. f_equal.
+  destruct (aa_hash x =? h) eqn:E; [|reflexivity]. apply Nat.eqb_eq in E. rewrite E, mem_get, Hg, andb_true_r. reflexivity.
+Qed.
+
+Lemma evm_roundtrip : forall F env s, wf_evm F s -> env_sorted env ->
+  exists s', init_evm F env (export_evm env s) = Some s' /\
+             export_evm env s' = export_evm env s /\ evm_equiv env s s'.
+Proof.
+  intros F env s W Henv.
+  destruct (evm_accounts_fold F env s W Henv env [] [] [] eq_refl eq_refl eq_refl
+              (fun h => eq_refl) (fun a => eq_refl)) as (code' & st' & Hfold & Hsc & Hss & Hc & Hst).
+  assert (Eft : of_list (map (fun f => (f_ftid F (ft_erc20 f) (ft_denom f), f)) (map snd (ev_ft s))) = ev_ft s).
+  { rewrite (map_keyed_id_gen _ _ _ (wv_ft_keys F s W)). exact (of_list_sorted _ (wv_ft F s W)). }
+  assert (Ecode : code' = filter (fun kv => exported_hash env s (fst kv)) (ev_code s)).
+  { apply sorted_ext; [exact Hsc | apply sortedb_filter; exact (wv_code F s W)|].
+    intros h. rewrite Hc, (get_filter_key (exported_hash env s) _ h (wv_code F s W)).
+    destruct (get h (ev_code s)) as [v|] eqn:Eg.
+    - rewrite (hash_seen_exported s env h v Eg). reflexivity.
+    - destruct (hash_seen s env h), (exported_hash env s h); reflexivity. }
+  assert (Est : st' = filter (fun kv => exported_acc env s (fst kv)) (ev_storage s)).
+  { apply sorted_ext; [exact Hss | apply sortedb_filter; exact (wv_storage F s W)|].
+    intros a. rewrite Hst, (get_filter_key (exported_acc env s) _ a (wv_storage F s W)), addr_seen_exported. reflexivity. }
+  eexists. split.
+  - unfold init_evm, export_evm. cbn [eg_accounts eg_ft eg_params]. fold (export_accs s env). rewrite Hfold, Eft. reflexivity.
+  - split.
+    + unfold export_evm. cbn [ev_params ev_code ev_storage ev_ft]. f_equal.
+      * apply flat_map_ext_in. intros x Hin. destruct (aa_eth x) eqn:Eeth; [|reflexivity].
+        rewrite Hc. destruct (get (aa_hash x) (ev_code s)) as [c|] eqn:Eg.
+        -- assert (Hx : acc_exported s x = true) by (unfold acc_exported; rewrite Eeth, mem_get, Eg; reflexivity).
+           rewrite (hash_seen_witness s env x Hin Hx). unfold storage_of. rewrite Hst, (addr_seen_witness s env x Hin Hx). reflexivity.
+        -- destruct (hash_seen s env (aa_hash x)); reflexivity.
+    + unfold evm_equiv. cbn [ev_params ev_code ev_storage ev_ft ev_idx_erc20 ev_idx_denom].
+      rewrite (wv_idx_erc20 F s W), (wv_idx_denom F s W). repeat split; assumption.
+Qed.
+
+(* ================================================================== the application *)
+Record wf_app (F : funs) (env : list authacc) (s : app_st) : Prop := {
+  wa_sudo : a_sudo s <> None;
+  wa_epochs : wf_epochs (a_epochs s);
+  wa_oracle : wf_oracle' (a_oracle s);
+  wa_tf : wf_tf F (a_tf s);
+  wa_devgas : wf_devgas F (a_devgas s);
+  wa_evm : wf_evm F (a_evm s);
+  wa_env : env_sorted env
+}.
+
+(** Main theorem: from a well-formed state, the export can be imported into a fresh chain (at any
+    height [h] and time [t]); exporting that chain again gives the first export with the epoch start
+    heights re-based to [h]; and the imported state agrees with the original up to the exception
+    list of the tree's genesis code ([stale_ok] / [reset_ok] say whether that list contains the two
+    defect exceptions). *)
+Theorem app_roundtrip : forall c F env h t s, wf_app F env s ->
+  exists g s',
+    export_app env s = Some g /\
+    init_app c F env (tf_bankmd (a_tf s)) h t g = Some s' /\
+    export_app env s' = Some (rebase_gen h g) /\
+    state_equiv (negb (match c_rid c with RidLastPlus1 => true | _ => false end)) (negb (c_tf_keeps_bank_md c)) env h t s s'.
+Proof.
+  intros c F env h t s [Wsu We Wo Wt Wd Wv Wenv].
+  destruct (a_sudo s) as [su|] eqn:Esu; [|congruence].
+  destruct (tf_roundtrip c F _ Wt) as (gt & Hgt & tf' & Htf' & Hgt' & Htp & Htd & Htc & Hta & Hti & Htm).
+  destruct (epochs_roundtrip h t _ We) as (e' & He' & Hee & Heq).
+  destruct (evm_roundtrip F env _ Wv Wenv) as (ev' & Hev' & Hevx & Hevq).
+  pose proof (oracle_init_export c h t _ Wo) as Ho. cbn zeta in Ho.
+  destruct Ho as (Hox & Hop & Howl & Hof & Hom & Hopv & Hov & Hopr & Horw & Hor & Hosn & Hoid).
+  eexists. eexists. split.
+  - unfold export_app. rewrite Esu, Hgt. cbn [export_sudo]. reflexivity.
+  - split.
+    + unfold init_app. cbn [g_epochs g_tf g_devgas g_evm g_sudo g_infl g_oracle].
+      rewrite He', Htf', (devgas_roundtrip F _ Wd), Hev'. reflexivity.
+    + split.
+      * unfold export_app. cbn [a_sudo a_tf a_infl a_epochs a_oracle a_devgas a_evm init_sudo export_sudo].
+        rewrite Hgt'. unfold rebase_gen. cbn [g_sudo g_infl g_epochs g_oracle g_tf g_devgas g_evm].
+        rewrite Hee, Hox, Hevx. reflexivity.
+      * unfold state_equiv. cbn [a_sudo a_tf a_infl a_epochs a_oracle a_devgas a_evm].
+        split; [unfold init_sudo; symmetry; exact Esu|].
+        split; [apply infl_state_equiv|].
+        split; [exact Heq|].
+        split.
+        { unfold oracle_equiv. do 10 (split; [assumption|]).
+          intros Hso _. destruct (c_rid c) eqn:Ec; cbn in Hso; try discriminate.
+          apply rewards_fresh_after; assumption. }
+        split.
+        { unfold tf_equiv. do 5 (split; [assumption|]).
+          intros Hro. apply Htm. destruct (c_tf_keeps_bank_md c); [reflexivity | discriminate]. }
+        split; [reflexivity | exact Hevq].
+Qed.
+
+(* ================================================================== the boolean hypotheses checker is sound *)
+Ltac andb_split :=
+  repeat match goal with H : _ && _ = true |- _ => apply andb_true_iff in H; destruct H end.
+
+Lemma keys_matchb_sound : forall V (f : V -> nat) (m : smap V), keys_matchb f m = true -> keys_match f m.
+Proof.
+  intros V f m H k v Hin. unfold keys_matchb in H. rewrite forallb_forall in H.
+  specialize (H _ Hin). cbn in H. apply Nat.eqb_eq in H. exact H.
+Qed.
+
+Lemma zsortedb_sound : forall V (m : list (Z * V)), zsortedb m = true -> zsorted m.
+Proof.
+  induction m as [|[k v] r IH]; intros H; [exact I|].
+  cbn [zsortedb] in H. apply andb_true_iff in H. destruct H as [Ha Hs]. cbn [zsorted]. split; [|exact (IH Hs)].
+  intros k' v' Hin. rewrite forallb_forall in Ha. specialize (Ha _ Hin). cbn in Ha. apply Z.ltb_lt in Ha. exact Ha.
+Qed.
+
+Lemma wf_appb_sound : forall F env s, wf_appb F env s = true -> wf_app F env s.
+Proof.
+  intros F env s H. unfold wf_appb in H. andb_split.
+  constructor.
+  - destruct (a_sudo s); [discriminate | discriminate].
+  - match goal with H : wf_epochsb _ = true |- _ => unfold wf_epochsb in H; andb_split end.
+    constructor; [assumption | apply keys_matchb_sound; assumption|].
+    intros k e Hin. match goal with H : forallb _ (a_epochs s) = true |- _ =>
+      rewrite forallb_forall in H; specialize (H _ Hin); cbn in H; apply negb_true_iff in H; apply Z.eqb_neq in H; exact H end.
+  - match goal with H : wf_oracleb _ = true |- _ => unfold wf_oracleb in H; andb_split end.
+    constructor; try assumption; try (apply keys_matchb_sound; assumption).
+    + split; [apply zsortedb_sound; assumption|].
+      intros k r Hin. match goal with H : forallb _ (o_rewards _) = true |- _ => rewrite forallb_forall in H; specialize (H _ Hin); cbn in H; apply Z.eqb_eq in H; exact H end.
+    + intros E. rewrite E in *. destruct (o_whitelist (a_oracle s)); [reflexivity | discriminate].
+  - match goal with H : wf_tfb _ _ = true |- _ => unfold wf_tfb in H; andb_split end.
+    constructor; try assumption; try (eapply eqb_of_true; eassumption).
+    + intros d v Hin. match goal with H : forallb (fun dv => eqb_of pair_nn_dec _ _) _ = true |- _ => rewrite forallb_forall in H; specialize (H _ Hin); cbn in H; apply eqb_of_true in H; exact H end.
+    + intros d v Hin. match goal with H : forallb (fun dv => mem _ _) _ = true |- _ => rewrite forallb_forall in H; specialize (H _ Hin); exact H end.
+  - match goal with H : wf_devgasb _ _ = true |- _ => unfold wf_devgasb in H; andb_split end.
+    constructor; try assumption; try (eapply eqb_of_true; eassumption); try (apply keys_matchb_sound; assumption).
+    apply Nat.eqb_eq. assumption.
+  - match goal with H : wf_evmb _ _ = true |- _ => unfold wf_evmb in H; andb_split end.
+    constructor; try assumption; try (eapply eqb_of_true; eassumption); try (apply keys_matchb_sound; assumption).
+    + intros h c Hin. match goal with H : forallb _ (ev_code _) = true |- _ => rewrite forallb_forall in H; specialize (H _ Hin); cbn in H end.
+      andb_split. split; [apply Nat.eqb_eq; assumption | apply negb_true_iff; assumption].
+    + intros a m Hin. match goal with H : forallb _ (ev_storage _) = true |- _ => rewrite forallb_forall in H; specialize (H _ Hin); cbn in H end.
+      andb_split. split; [assumption|]. destruct m; [discriminate | discriminate].
+  - assumption.
+Qed.
+
+(* ================================================================== non-vacuity *)
+(** A state with: a contract with two slots and a FunToken, a code-less account with storage, orphan
+    bytecode, a token-factory denom whose admin differs from its creator and with custom bank
+    metadata, a fee share, two epochs, pending prevote / vote / two pending rewards, a miss counter. *)
+Definition ex_funs : funs :=
+  {| f_hash := fun c => c - 100;                    (* code ids 101, 102 hash to 1, 2 *)
+     f_code_empty := fun c => c =? 0;
+     f_ftid := fun e d => e + d;
+     f_tfparse := fun d => (d + 1, d + 2);
+     f_tfdefmd := fun d => 500 + d;
+     f_dgsan := fun p => p |}.
+Definition ex_env : list authacc :=
+  [ {| aa_addr := 1; aa_eth := true; aa_hash := 0 |};        (* EOA *)
+    {| aa_addr := 3; aa_eth := true; aa_hash := 1 |};        (* contract with storage *)
+    {| aa_addr := 4; aa_eth := true; aa_hash := 0 |};        (* code-less account that has storage *)
+    {| aa_addr := 6; aa_eth := false; aa_hash := 0 |} ].     (* module account *)
+Definition ex_state : app_st :=
+  {| a_sudo := Some {| su_root := 1; su_contracts := [2; 3] |};
+     a_infl := {| in_params := 4; in_period := Some 2%Z; in_skipped := Some 5%Z |};
+     a_epochs := [(0, {| ep_id := 0; ep_start := 1000%Z; ep_dur := 60%Z; ep_cur := 7%Z; ep_cstart := 1420%Z; ep_started := true; ep_height := 33%Z |});
+                  (1, {| ep_id := 1; ep_start := 1000%Z; ep_dur := 3600%Z; ep_cur := 1%Z; ep_cstart := 1000%Z; ep_started := true; ep_height := 2%Z |})];
+     a_oracle := {| o_params := 9; o_whitelist := [5; 2]; o_rates := [(2, {| r_rate := 31; r_created := 30%Z; r_ts := 1400%Z |})];
+                    o_feeders := [(7, 1)]; o_miss := [(8, 3%Z)];
+                    o_prevotes := [(7, {| v_voter := 7; v_body := 40 |})]; o_votes := [(8, {| v_voter := 8; v_body := 41 |})];
+                    o_pairs := [2; 5];
+                    o_rewards := [(1%Z, {| rw_id := 1%Z; rw_body := 50 |}); (2%Z, {| rw_id := 2%Z; rw_body := 51 |})];
+                    o_rewards_id := Some 3%Z;
+                    o_snaps := [{| sn_pair := 2; sn_ts_key := 1300%Z; sn_pair_f := 2; sn_price := 30; sn_ts := 1300%Z |};
+                                {| sn_pair := 2; sn_ts_key := 1400%Z; sn_pair_f := 2; sn_price := 31; sn_ts := 1400%Z |}] |};
+     a_tf := {| tf_params := 11; tf_denoms := [(10, (11, 12))]; tf_creators := [11]; tf_admins := [(10, 77)];
+                tf_idx := [(11, 10)]; tf_bankmd := [(10, 999)] |};
+     a_devgas := {| dg_params := 13; dg_shares := [(20, {| fs_contract := 20; fs_deployer := 21; fs_withdrawer := 22 |})];
+                    dg_idx_dep := [(21, 20)]; dg_idx_wd := [(22, 20)] |};
+     a_evm := {| ev_params := 14; ev_code := [(1, 101); (2, 102)];     (* 102 = bytecode of a self-destructed contract *)
+                 ev_storage := [(3, [(0, 60); (5, 61)]); (4, [(1, 62)])];
+                 ev_ft := [(13, {| ft_erc20 := 3; ft_denom := 10; ft_body := 70 |})];
+                 ev_idx_erc20 := [(3, 13)]; ev_idx_denom := [(10, 13)] |} |}.
+
+Example app_wf_nonvacuous : wf_app ex_funs ex_env ex_state.
+Proof. apply wf_appb_sound. vm_compute. reflexivity. Qed.
+
+(** … and on it the round trip really drops / re-bases what the exception list says (and nothing else). *)
+Example app_roundtrip_nonvacuous :
+  let c := {| c_rid := RidLastPlus1; c_tf_keeps_bank_md := true |} in
+  exists g s', export_app ex_env ex_state = Some g /\
+    init_app c ex_funs ex_env (tf_bankmd (a_tf ex_state)) 100%Z 2000%Z g = Some s' /\
+    s' <> ex_state /\
+    ev_code (a_evm s') = [(1, 101)] /\ ev_storage (a_evm s') = [(3, [(0, 60); (5, 61)])] /\
+    o_rewards_id (a_oracle s') = Some 3%Z /\
+    state_equivb false false ex_env 100%Z 2000%Z ex_state s' = true.
+Proof.
+  eexists. eexists. split; [vm_compute; reflexivity|]. split; [vm_compute; reflexivity|].
+  split; [discriminate|]. repeat split; vm_compute; reflexivity.
+Qed.
+
+(* ================================================================== corollaries exported by Property.v *)
+Lemma export_roundtrip : forall c F env h t s, wf_app F env s ->
+  exists g s' g', export_app env s = Some g /\ init_app c F env (tf_bankmd (a_tf s)) h t g = Some s' /\
+                  export_app env s' = Some g' /\ gen_equiv h g g'.
+Proof.
+  intros c F env h t s W. destruct (app_roundtrip c F env h t s W) as (g & s' & H1 & H2 & H3 & _).
+  exists g, s', (rebase_gen h g). split; [exact H1|]. split; [exact H2|]. split; [exact H3|]. reflexivity.
+Qed.
+
+Lemma state_equiv_strict : forall c F env h t s, cfg_ok c = true -> wf_app F env s ->
+  exists g s', export_app env s = Some g /\ init_app c F env (tf_bankmd (a_tf s)) h t g = Some s' /\
+               state_equiv false false env h t s s'.
+Proof.
+  intros c F env h t s Hc W. destruct (app_roundtrip c F env h t s W) as (g & s' & H1 & H2 & _ & H4).
+  exists g, s'. unfold cfg_ok in Hc. destruct (c_rid c); try discriminate. rewrite Hc in H4. cbn in H4.
+  split; [exact H1|]. split; [exact H2|]. exact H4.
+Qed.
+
+Lemma exceptions_of_ok_cfg : forall c, cfg_ok c = true -> exceptions c = tolerated.
+Proof.
+  intros c Hc. unfold cfg_ok in Hc. unfold exceptions. destruct (c_rid c); try discriminate. rewrite Hc. reflexivity.
+Qed.
